@@ -1286,10 +1286,115 @@ func main() {
 			}
 		}
 		g.defsOut = append(g.defsOut, facts...)
+		g.defsOut = append(g.defsOut, stateFacts(fset, files, info, pkg)...)
 		fmt.Printf("import %s\nset_option linter.unusedVariables false\nset_option maxRecDepth 100000\n/-! GENERATED from %s — do not edit -/\nnamespace %s\n\n", imp, dir, ns)
 		for _, d := range g.defsOut {
 			fmt.Println(d)
 		}
 		fmt.Printf("end %s\n", ns)
+	}
+}
+
+
+// stateFacts lists, for the whole package (every function, translated or not), each place where shared
+// (package-level) state is written, has its address taken, or has a method called on it, and each use of
+// package unsafe. Property C14 (results depend on arguments only) rests on these lists being what the
+// Lean side expects.
+func stateFacts(fset *token.FileSet, files []*ast.File, info *types.Info, pkg *types.Package) []string {
+	var writes, calls, unsafes, vars []string
+	isPkgVar := func(e ast.Expr) (string, bool) {
+		for {
+			switch x := e.(type) {
+			case *ast.ParenExpr:
+				e = x.X
+				continue
+			case *ast.IndexExpr:
+				e = x.X
+				continue
+			case *ast.SelectorExpr:
+				e = x.X
+				continue
+			case *ast.StarExpr:
+				e = x.X
+				continue
+			case *ast.Ident:
+				if o, ok := info.Uses[x].(*types.Var); ok && o.Parent() == pkg.Scope() {
+					return x.Name, true
+				}
+				return "", false
+			}
+			return "", false
+		}
+	}
+	for _, n := range pkg.Scope().Names() {
+		if v, ok := pkg.Scope().Lookup(n).(*types.Var); ok {
+			vars = append(vars, n+":"+v.Type().String())
+		}
+	}
+	for _, f := range files {
+		for _, d := range f.Decls {
+			fd, ok := d.(*ast.FuncDecl)
+			if !ok || fd.Body == nil {
+				continue
+			}
+			fn := fd.Name.Name
+			if fd.Recv != nil {
+				rt := fd.Recv.List[0].Type
+				if st, ok := rt.(*ast.StarExpr); ok {
+					rt = st.X
+				}
+				if id, ok := rt.(*ast.Ident); ok {
+					fn = id.Name + "." + fn
+				}
+			}
+			ast.Inspect(fd.Body, func(n ast.Node) bool {
+				switch x := n.(type) {
+				case *ast.AssignStmt:
+					for _, l := range x.Lhs {
+						if v, ok := isPkgVar(l); ok {
+							writes = append(writes, fn+":"+v)
+						}
+					}
+				case *ast.IncDecStmt:
+					if v, ok := isPkgVar(x.X); ok {
+						writes = append(writes, fn+":"+v)
+					}
+				case *ast.UnaryExpr:
+					if x.Op == token.AND {
+						if v, ok := isPkgVar(x.X); ok {
+							writes = append(writes, fn+":&"+v)
+						}
+					}
+				case *ast.CallExpr:
+					if sel, ok := x.Fun.(*ast.SelectorExpr); ok {
+						if id, ok := sel.X.(*ast.Ident); ok {
+							if o, ok := info.Uses[id].(*types.Var); ok && o.Parent() == pkg.Scope() {
+								calls = append(calls, fn+":"+id.Name+"."+sel.Sel.Name)
+							}
+							if pn, ok := info.Uses[id].(*types.PkgName); ok && pn.Imported().Path() == "unsafe" {
+								unsafes = append(unsafes, fn+":unsafe."+sel.Sel.Name)
+							}
+						}
+					}
+				case *ast.GoStmt:
+					calls = append(calls, fn+":go")
+				}
+				return true
+			})
+		}
+	}
+	lst := func(xs []string) string {
+		sort.Strings(xs)
+		var q []string
+		for _, x := range xs {
+			q = append(q, fmt.Sprintf("%q", x))
+		}
+		return "[" + strings.Join(q, ", ") + "]"
+	}
+	return []string{
+		"/-- package-level variables (name:type) -/\ndef pkg_vars : List String :=\n  " + lst(vars) + "\n",
+		"/-- function:variable for every assignment to (or address-of) a package-level variable inside a function body -/\ndef pkg_writes : List String :=\n  " + lst(writes) + "\n",
+		"/-- function:variable.method for every method call on a package-level variable; function:go for goroutine starts -/\ndef pkg_calls : List String :=\n  " + lst(calls) + "\n",
+		"/-- function:unsafe.X for every use of package unsafe -/\ndef pkg_unsafe : List String :=\n  " + lst(unsafes) + "\n",
 	}
 }
